@@ -11,6 +11,7 @@ import (
 	"encoding/json"
 	"fmt"
 	"os"
+	"path/filepath"
 	"unsafe"
 )
 
@@ -98,6 +99,28 @@ func vAssert(c bool, label string) {
 }
 
 func vReach(label string) {}
+
+// vTempRoot / vSetFile: a tiny file system for harnesses that probe the disk.
+// Natively the files are really created under a fresh temporary directory.
+var vRootDir string
+
+func vTempRoot() string {
+	d, err := os.MkdirTemp("", "vroot")
+	if err != nil {
+		panic(err)
+	}
+	vRootDir = d
+	return d
+}
+
+func vSetFile(p string) {
+	if err := os.MkdirAll(filepath.Dir(p), 0o755); err != nil {
+		panic(err)
+	}
+	if err := os.WriteFile(p, []byte("x"), 0o644); err != nil {
+		panic(err)
+	}
+}
 
 // vChoose returns a byte of alphabet selected by replayed selector bits.
 func vChoose(name string, alphabet string) byte {
